@@ -40,8 +40,13 @@ func replay(c *vlib.Check, path string, b []byte, err error) {
 		if json.Unmarshal(f.Witness.Scenario, &s) == nil {
 			runDrvScenario(c, s)
 		}
+	case "drivermem":
+		var s dmScenario
+		if json.Unmarshal(f.Witness.Scenario, &s) == nil {
+			runMemScenario(c, s)
+		}
 	default:
-		c.Inconclusive("replay file has no pmc/driver scenario")
+		c.Inconclusive("replay file has no pmc/driver/drivermem scenario")
 	}
 }
 
@@ -66,6 +71,7 @@ func main() {
 	}
 	nP := c.N(1200, 12000)
 	nD := c.N(1500, 12000)
+	nM := c.N(600, 8000)
 
 	// the canonical battery runs first and sequentially, so that the witness
 	// kept for a key is the canonical reproducer whenever it reproduces
@@ -74,6 +80,18 @@ func main() {
 	}
 	for _, s := range canonicalDrv() {
 		runDrvScenario(c, s)
+	}
+	for _, s := range canonicalMem() {
+		runMemScenario(c, s)
+	}
+	// development aid: C19_ONLY_MEM=canon runs the memory layer's canonical battery alone,
+	// C19_ONLY_MEM=all also its generated scenarios; such a run never reports "held"
+	if v := os.Getenv("C19_ONLY_MEM"); v != "" {
+		if v == "all" {
+			mb := c.Rand("drivermem")
+			vlib.Parallel(nM, 0, func(i int) { runMemScenario(c, genMemScenario(mb.ForkN("s", i), i)) })
+		}
+		c.Finish(vlib.FinishOpts{Rule: "memory layer of the driver part only (development aid, never 'held')", MinNontrivial: 1 << 30})
 	}
 	var pm []pmcScenario
 	base := c.Rand("pmc")
@@ -85,19 +103,32 @@ func main() {
 	for i := 0; i < nD; i++ {
 		dr = append(dr, genDrvScenario(dbase.ForkN("s", i), i))
 	}
-	vlib.Parallel(len(pm)+len(dr), 0, func(i int) {
-		if i < len(pm) {
+	var dm []dmScenario
+	mbase := c.Rand("drivermem")
+	for i := 0; i < nM; i++ {
+		dm = append(dm, genMemScenario(mbase.ForkN("s", i), i))
+	}
+	vlib.Parallel(len(pm)+len(dr)+len(dm), 0, func(i int) {
+		switch {
+		case i < len(pm):
 			runPMCScenario(c, pm[i])
-		} else {
+		case i < len(pm)+len(dr):
 			runDrvScenario(c, dr[i-len(pm)])
+		default:
+			runMemScenario(c, dm[i-len(pm)-len(dr)])
 		}
 	})
 	c.Finish(vlib.FinishOpts{
 		Rule: "PMC scenario = (2-4 real controllers, memory kind/latency/jitter/buffers/stalls per controller, control-peer back-pressure, " +
 			"sequence of migrations with page sizes 64*k up to 64 KiB issued back-to-back or after completion, disjoint pairs concurrently); " +
 			"driver scenario = (2-4 GPUs, page size, 1-2 processes, sequence of PageMigrationReqToDriver, queued or after the reply, random CP answer delays); " +
+			"driver memory scenario = (2-4 GPUs of 3-16 pages that are full or nearly full, default or buddy allocator, 1-2 processes, 1-4 requests of 1-3 pages, " +
+			"application calls AllocateMemory / FreeMemory / Remap / write before, inside (before re-homing, while each copy is outstanding) and after every migration window, " +
+			"copy done by the fake CP in a byte-addressed fake memory at a random moment of the window, every GPU filled to the last frame at the end); " +
 			"non-trivial = PMC scenario with >= 2 checked migrations of which one arrived while the controller was migrating, " +
-			"or one driver handshake whose five stages and page-table post-condition were all checked",
+			"or one driver handshake whose five stages and page-table post-condition were all checked, " +
+			"or one driver memory scenario in which every request was answered, an allocation on the source GPU inside a window went past the frames that were free " +
+			"when the page was re-homed (= would receive a prematurely released source frame) and all contents were compared",
 		Assumptions: []string{
 			"environment follows the driver's protocol: a controller pulls from one source at a time and is never source and destination at once; concurrent migrations only between disjoint pairs",
 			"page sizes are multiples of the 64-byte transfer unit, > 0",
@@ -105,19 +136,42 @@ func main() {
 			"fake command processors answer every handshake command exactly once after a random delay; CurrAccessingGPUs is non-empty and duplicate-free and contains the host GPU, as akita's MMU builds it",
 			"the driver's engine is run directly (serial engine); Driver.Run is not called",
 			"order 'reply to MMU after the restart acknowledgements' (DESIGN) is counted, not judged: the property text does not state it",
+			"driver memory layer: application calls are made on the engine goroutine between two component ticks (Driver.Run is not called); the application never frees, remaps or writes a page that a pending request names; " +
+				"it only issues calls that succeed on the unchanged allocator, plus one-page AllocateMemory calls on a GPU it believes full (answered 'out of memory' or with a frame, both accepted)",
+			"driver memory layer: a source frame is protected from the moment the driver takes the request until it takes the acknowledgement of that page's copy; " +
+				"reuse between that acknowledgement and the reply is counted (drv_mem_source_frames_reused_after_copy_before_reply), not judged: the copy is complete",
+			"driver memory layer: frames that re-homed pages leave behind are never handed out again on the unchanged tree (drv_mem_frames_never_reusable): observed, not judged here (C10)",
+			"driver memory layer: Remap does not carry contents over (the application refills a remapped buffer); buddy allocator only with 4 KiB pages, power-of-two GPU sizes and one-page Remap",
 		},
 		MinNontrivial: 60,
 		MinCounters: map[string]int64{
-			"pmc_migrations_checked":                200,
-			"pmc_chunks_checked":                    5000,
-			"pmc_64k_pages":                         3,
-			"pmc_requests_arrived_during_migration": 40,
-			"pmc_concurrent_disjoint_migrations":    5,
-			"pmc_mem_stalls":                        100,
-			"pmc_ctrl_stalls":                       20,
-			"drv_handshakes_checked":                200,
-			"drv_pages_checked":                     200,
-			"drv_requests_queued_during_migration":  20,
+			"pmc_migrations_checked":                               200,
+			"pmc_chunks_checked":                                   5000,
+			"pmc_64k_pages":                                        3,
+			"pmc_requests_arrived_during_migration":                40,
+			"pmc_concurrent_disjoint_migrations":                   5,
+			"pmc_mem_stalls":                                       100,
+			"pmc_ctrl_stalls":                                      20,
+			"drv_handshakes_checked":                               200,
+			"drv_pages_checked":                                    200,
+			"drv_requests_queued_during_migration":                 20,
+			"drv_mem_windows_default":                              80,
+			"drv_mem_windows_buddy":                                80,
+			"drv_mem_allocs_in_window":                             400,
+			"drv_mem_allocs_in_window_on_source":                   250,
+			"drv_mem_allocs_in_window_on_destination":              40,
+			"drv_mem_allocs_in_window_on_full_gpu":                 150,
+			"drv_mem_allocs_in_window_on_exhausted_source_default": 100,
+			"drv_mem_allocs_in_window_on_exhausted_source_buddy":   100,
+			"drv_mem_windows_with_free":                            100,
+			"drv_mem_frees_in_window":                              100,
+			"drv_mem_remaps_in_window":                             10,
+			"drv_mem_writes_in_window":                             300,
+			"drv_mem_frames_handed_out_checked":                    2000,
+			"drv_mem_probes_answered_out_of_memory":                200,
+			"drv_mem_migrated_pages_compared":                      500,
+			"drv_mem_pages_compared":                               5000,
+			"drv_mem_invariant_evaluations":                        10000,
 		},
 	})
 }
